@@ -11,9 +11,10 @@ import (
 	"time"
 
 	sdkmath "cosmossdk.io/math"
+	sdk "github.com/cosmos/cosmos-sdk/types"
 	stakingtypes "github.com/cosmos/cosmos-sdk/x/staking/types"
 	transfertypes "github.com/cosmos/ibc-go/v7/modules/apps/transfer/types"
-	channeltypes "github.com/cosmos/ibc-go/v7/modules/core/04-channel/types"
+	clienttypes "github.com/cosmos/ibc-go/v7/modules/core/02-client/types"
 	"github.com/ethereum/go-ethereum/accounts/abi"
 	"github.com/ethereum/go-ethereum/common"
 
@@ -482,20 +483,37 @@ type icsAlloc struct {
 }
 
 // c04ICS20: approve / increaseAllowance / decreaseAllowance / revoke of the ICS-20 precompile
-// against a reference list of allocations (channels are planted in the channel keeper; no
-// packets are sent).
+// against a reference list of allocations, and real transfers through a granted contract that
+// spend the allowance (channels are two loopback pairs over connection-localhost).
 func c04ICS20(r *report.R, id string) {
 	rng := r.Rand(id)
-	n := vn.New(vn.Config{Seed: uint64(r.Seed), NumVals: 1, NumAccounts: 4})
+	cfg := vn.Config{Seed: uint64(r.Seed), NumVals: 1, NumAccounts: 4, ExtraBalances: map[string]sdk.Coins{}}
+	_, accs0 := vn.Keys(cfg)
+	cfg.ExtraBalances[accs0[0].Addr.String()] = sdk.NewCoins(sdk.NewInt64Coin("uatom", 1_000_000_000))
+	n := vn.New(cfg)
 	S := n.Accounts[0]
 	pcs := n.App.EvmKeeper.Precompiles(addrICS20)
 	ics := pcs[addrICS20].(*ics20pc.Precompile).ABI
 	n.BeginBlock(vn.BlockOpts{})
+	// real channels: two loopback pairs (channel-0/1 and channel-2/3) over connection-localhost
 	channels := []string{"channel-0", "channel-1", "channel-2"}
-	for _, ch := range channels {
-		n.App.IBCKeeper.ChannelKeeper.SetChannel(n.Ctx(), "transfer", ch, channeltypes.NewChannel(channeltypes.OPEN, channeltypes.UNORDERED, channeltypes.NewCounterparty("transfer", "channel-9"), []string{"connection-0"}, "ics20-1"))
+	for i := 0; i < 2; i++ {
+		if _, err := n.OpenLoopback(n.Accounts[3]); err != nil {
+			r.Inconcl("cannot open loopback channels: %v", err)
+			return
+		}
 	}
-	grantees := []common.Address{vn.DetAccount(1, "g", 1).Eth, vn.DetAccount(1, "g", 2).Eth}
+	// grantees: an ordinary account, and two contracts that forward their calldata to the
+	// precompile (only a contract called by the grant's owner can spend an ICS-20 allowance)
+	fwd := func() common.Address {
+		a, res := n.Deploy(n.Accounts[1], evmasm.InitCode(nil, []evmasm.Step{evmasm.Forward{Kind: evmasm.Call, To: addrICS20, Fail: evmasm.Ignore, Record: 1}}), nil)
+		if res.Code != 0 {
+			return common.Address{}
+		}
+		return a
+	}
+	gContract, gStranger := fwd(), fwd()
+	grantees := []common.Address{vn.DetAccount(1, "g", 1).Eth, gContract}
 	denoms := []string{vn.Denom, "uatom"}
 	ref := map[common.Address][]icsAlloc{}
 	var trace []string
@@ -562,7 +580,121 @@ func c04ICS20(r *report.R, id string) {
 		r.Eval(1)
 		g := grantees[rng.Intn(len(grantees))]
 		cur, has := ref[g]
-		switch k := rng.Intn(10); {
+		switch k := rng.Intn(14); {
+		case k >= 10: // the owner calls a contract that spends (or tries to spend) the allowance by a real transfer
+			spender, granted := gContract, true
+			if rng.Intn(4) == 0 {
+				spender, granted = gStranger, false
+			}
+			cur, has := ref[spender]
+			ch := channels[rng.Intn(len(channels))]
+			d := denoms[rng.Intn(len(denoms))]
+			if len(cur) > 0 && rng.Intn(4) > 0 {
+				// aim at something the grant lists
+				a := cur[rng.Intn(len(cur))]
+				ch = a.channel
+				var listed []string
+				for _, dd := range denoms {
+					if _, ok := a.limits[dd]; ok {
+						listed = append(listed, dd)
+					}
+				}
+				if len(listed) > 0 {
+					d = listed[rng.Intn(len(listed))]
+				}
+			}
+			idx := -1
+			for i, a := range cur {
+				if a.port == "transfer" && a.channel == ch {
+					idx = i
+					break
+				}
+			}
+			amt := sdkmath.NewInt(int64(rng.Intn(600) + 1))
+			if idx >= 0 {
+				if l, ok := cur[idx].limits[d]; ok {
+					switch rng.Intn(5) {
+					case 0:
+						amt = l // exactly the limit
+					case 1:
+						amt = l.AddRaw(1) // one more than granted
+					case 2, 3:
+						amt = sdkmath.NewInt(rng.Int63n(l.Int64()) + 1) // within the limit
+					}
+				}
+			}
+			recv := n.Accounts[2].Addr.String()
+			data, err := ics.Pack("transfer", "transfer", ch, d, amt.BigInt(), S.Eth, recv, clienttypes.NewHeight(1, 10_000_000), uint64(0), "")
+			if err != nil {
+				r.Note("pack transfer: %v", err)
+				continue
+			}
+			balBefore := n.Balance(S.Addr, d)
+			feeBefore := n.Balance(S.Addr, vn.Denom)
+			res := n.Deliver(n.EthTx(S, vn.EthArgs{Nonce: n.EthNonce(S.Eth), To: &spender, Gas: 1_500_000, GasPrice: big.NewInt(1_000_000_000), Data: data}))
+			ers := vn.EthResult(res)
+			if res.Code != 0 || len(ers) != 1 || ers[0].VmError != "" {
+				r.Note("spend tx failed at top level: %.80s", res.Log)
+				continue
+			}
+			mark := n.App.EvmKeeper.GetState(n.Ctx(), spender, common.BigToHash(big.NewInt(1))).Big().Uint64()
+			ok := mark == 2
+			wantOK := granted && has && idx >= 0
+			pos := "no-such-allocation"
+			if wantOK {
+				pos = fmt.Sprintf("allocation#%d-of-%d", idx, len(cur))
+				l, okd := cur[idx].limits[d]
+				switch {
+				case !okd:
+					wantOK, pos = false, pos+",denom-not-granted"
+				case l.LT(amt):
+					wantOK, pos = false, pos+",over-limit"
+				case l.Equal(amt):
+					pos += ",exactly-limit"
+				}
+			}
+			if !granted {
+				pos = "contract-without-grant"
+			}
+			trace = append(trace, fmt.Sprintf("spend via %s: transfer(%s, %s%s) [%s] ok=%v", spender.Hex()[:8], ch, amt, d, pos, ok))
+			moved := balBefore.Sub(n.Balance(S.Addr, d))
+			if d == vn.Denom {
+				// fee: gasUsed × price, read from the response
+				moved = feeBefore.Sub(n.Balance(S.Addr, vn.Denom)).Sub(sdkmath.NewIntFromUint64(ers[0].GasUsed).MulRaw(1_000_000_000))
+			}
+			if ok && !wantOK {
+				r.Violation(id, "ics20-transfer|"+pos+"|spent-beyond-grant", fmt.Sprintf("a contract moved %s%s of the owner over %s although the reference grant does not cover it", amt, d, ch), trace)
+				return
+			}
+			if !ok && !moved.IsZero() {
+				r.Violation(id, "ics20-transfer|"+pos+"|rejected-but-coins-moved", fmt.Sprintf("the precompile call failed but the owner's %s balance changed by %s", d, moved), trace)
+				return
+			}
+			if ok {
+				if !moved.Equal(amt) {
+					r.Violation(id, "ics20-transfer|"+pos+"|moved≠amount", fmt.Sprintf("transfer of %s%s moved %s", amt, d, moved), trace)
+					return
+				}
+				l := cur[idx].limits[d]
+				if l.Sub(amt).IsPositive() {
+					cur[idx].limits[d] = l.Sub(amt)
+				} else {
+					delete(cur[idx].limits, d)
+				}
+				if len(cur[idx].limits) == 0 {
+					cur = append(cur[:idx:idx], cur[idx+1:]...)
+				}
+				if len(cur) == 0 {
+					delete(ref, spender)
+				} else {
+					ref[spender] = cur
+				}
+				r.Count("ics20_transfers_within_grant", 1)
+				r.Nontriv("ics20|transfer|" + pos)
+			} else {
+				r.Count("ics20_transfers_rejected", 1)
+				r.Nontriv("ics20|transfer-rejected|" + pos)
+			}
 		case k < 3 || !has: // approve a fresh allocation list (several allocations may share the port)
 			na := 1 + rng.Intn(3)
 			var allocs []abiAlloc
